@@ -12,7 +12,7 @@ import random
 from .. import projlab, seqcase
 from .. import specs as S
 
-SIZES = {'quick': 40, 'thorough': 500}
+SIZES = {'quick': 60, 'thorough': 600}
 APPS = ('app1', 'app2', 'app3', 'app4', 'app5')
 
 
@@ -80,12 +80,12 @@ def gen(rng):
             evo_deps[u] = deps
     # app-level: whole app after another whole app
     for a in apps:
-        if rng.random() < 0.25 and per_app[a] and not applied[a]:
-            # (only between apps without applied evolutions: an app-level
-            # requirement also binds the already applied ones and could
-            # contradict how their requirements were oriented)
+        if rng.random() < 0.45 and per_app[a] and not applied[a]:
+            # (only for an app without applied evolutions: an app-level
+            # requirement also binds already applied ones and could
+            # contradict how their requirements were oriented; the app it
+            # waits for may be partially applied)
             cands = [b for b in apps if b != a and per_app[b] and
-                     not applied[b] and
                      max(pos[x] for x in per_app[b]) <
                      min(pos[x] for x in per_app[a])]
             if cands:
